@@ -29,6 +29,7 @@
 #include <stdio.h>
 #include <stdlib.h>
 #include <string.h>
+#include <sys/ioctl.h>
 #include <sys/resource.h>
 #include <unistd.h>
 
@@ -89,13 +90,32 @@ int main(int argc, char **argv)
 	const char *w = script_get(script, "wait", val, sizeof val);
 	if (w && strcmp(w, "none")) {
 		int want_hup = !strcmp(w, "hup");
-		/* events=0 still reports POLLHUP/POLLERR: that is "the writer closed" */
-		struct pollfd pfd = { .fd = 0, .events = want_hup ? 0 : POLLIN };
-		for (;;) {
-			int r = poll(&pfd, 1, -1);
-			if (r < 0 && errno == EINTR)
-				continue;
-			break;
+		if (!want_hup) {
+			struct pollfd pfd = { .fd = 0, .events = POLLIN };
+			for (;;) {
+				int r = poll(&pfd, 1, -1);
+				if (r < 0 && errno == EINTR)
+					continue;
+				break;
+			}
+		} else {
+			/* "the writer has written all it can": it closed its end (POLLHUP;
+			 * events=0 still reports it), or the pipe is full and the writer
+			 * is blocked. The 1 ms poll only delays, it decides nothing. */
+			int cap = fcntl(0, F_GETPIPE_SZ);
+			if (cap <= 0)
+				cap = 65536;
+			for (;;) {
+				struct pollfd pfd = { .fd = 0, .events = 0 };
+				int r = poll(&pfd, 1, 1);
+				if (r < 0 && errno == EINTR)
+					continue;
+				if (r > 0 && (pfd.revents & (POLLHUP | POLLERR | POLLNVAL)))
+					break;
+				int avail = 0;
+				if (ioctl(0, FIONREAD, &avail) == 0 && avail >= cap)
+					break;
+			}
 		}
 	}
 
